@@ -508,5 +508,9 @@ Chk_Quiesce(blocked) ==
 
 Chk_Panic == {<<"C05", "panic">>}
 Chk_Census(n) == V(n = 0, "C05", "goroutine-leak")
+\* census taken once the caller holds the final result of every call of the run,
+\* at rest, before the harness ends the contexts: goroutines of the library
+\* that are not running user code (handler, caller)
+Chk_CensusT(n) == V(n = 0, "C05", "goroutine-left-after-completion")
 
 =============================================================================
